@@ -32,6 +32,7 @@ type opSc struct {
 	PreCancel    bool   `json:"pre_cancelled,omitempty"`  // the context is already cancelled when the operation is called (the earliest cancellation instant)
 	CloseAfterMs int    `json:"close_after_ms,omitempty"` // >0: Close lands this long after the return (0: 10 minutes later, when every timeout of the operation has passed)
 	SlowReadMs   int    `json:"slow_read_ms,omitempty"`   // channel operations: the consumer pauses this long after every value it reads (the producer is then usually blocked handing over the next one)
+	SmallNet     bool   `json:"small_net,omitempty"`      // provideopt: the size estimator is primed with sparse measurements (estimate = pool size / 64): a bucketful of the pool's nearest peers is near enough for an early write
 }
 
 type opObs struct {
@@ -52,12 +53,23 @@ type opObs struct {
 
 // primeEstimator feeds the network size estimator with measurements taken from
 // the full peer pool so that optimistic provide has small thresholds.
-func primeEstimator(d *IpfsDHT, k int) {
+func primeEstimator(d *IpfsDHT, k int, sparse ...bool) {
 	pp, kp := ppool(), kpoolS()
 	all := pp.WithPrefix("")
 	for j := 0; j < 6; j++ {
 		key := kp.IDs[100+j]
 		tk := sha256.Sum256([]byte(key))
+		if len(sparse) > 0 && sparse[0] {
+			// every 64th nearest pool peer: what a network 64 times smaller looks like
+			srt := append([]int(nil), all...)
+			sort.Slice(srt, func(a, b int) bool { return verifsim.XorLess(tk, pp.Kad[srt[a]], pp.Kad[srt[b]]) })
+			ids := make([]peer.ID, 0, k)
+			for i := 0; i < k && (i+1)*64-1 < len(srt); i++ {
+				ids = append(ids, peer.ID(pp.IDs[srt[(i+1)*64-1]]))
+			}
+			_ = d.nsEstimator.Track(key, ids)
+			continue
+		}
 		// the k nearest pool peers: peers sharing the longest prefix
 		var cand []int
 		for l := 20; l >= 0 && len(cand) < 4*k; l-- {
@@ -98,7 +110,7 @@ func runOp(t *testing.T, sc *opSc) opObs {
 			env.h.SetAddrs(nil)
 		}
 		if sc.Op == "provideopt" {
-			primeEstimator(env.d, s.K)
+			primeEstimator(env.d, s.K, sc.SmallNet)
 		}
 		time.Sleep(time.Second)
 		base := context.Background()
@@ -356,6 +368,7 @@ func genOp(t *rapid.T) opSc {
 		sc.Count = rapid.SampledFrom([]int{0, 1, 2, 5}).Draw(t, "count")
 	}
 	genFaultyPeers(t, s, n)
+	writesHang := false
 	if sc.Op == "findpeer" {
 		s.KeyPeer = 1 + rapid.IntRange(0, n-1).Draw(t, "target")
 	}
@@ -364,10 +377,23 @@ func genOp(t *rapid.T) opSc {
 		pp := ppool()
 		tk := s.keyKad()
 		var cand []int
-		for l := 20; l >= 0 && len(cand) < 4; l-- {
+		for l := 20; l >= 0 && len(cand) < 8; l-- {
 			cand = pp.WithPrefix(verifsim.BitString(tk, l))
 		}
+		sort.Slice(cand, func(a, b int) bool { return verifsim.XorLess(tk, pp.Kad[cand[a]], pp.Kad[cand[b]]) })
 		m := rapid.IntRange(0, min(4, len(cand))).Draw(t, "nNearest")
+		if sc.Op == "provideopt" && verifsim.Chance(t, "writesHang", 35) {
+			// every write hangs and a bucketful (or more) of peers is near enough for an early write: more early writes are in
+			// flight than the operation waits for, whatever ends it
+			m = min(s.K+rapid.IntRange(0, 2).Draw(t, "nearestOver"), len(cand), len(s.Peers))
+			for i := range s.Peers {
+				s.Peers[i].Put = "hang"
+			}
+			writesHang = true
+			sc.SmallNet = true
+		} else if sc.Op == "provideopt" && verifsim.Chance(t, "smallNet", 20) {
+			sc.SmallNet = true
+		}
 		for i := 0; i < m && i < len(s.Peers); i++ {
 			dup := false
 			for _, p := range s.Peers {
@@ -390,6 +416,9 @@ func genOp(t *rapid.T) opSc {
 		// land on or next to a latency of some peer
 		p := s.Peers[rapid.IntRange(0, n-1).Draw(t, "cancelPeer")]
 		sc.CancelMs = max(1, p.LatMs+p.DialMs+rapid.SampledFrom([]int{-300, -20, -1, -1, 0, 1}).Draw(t, "cancelOff"))
+	}
+	if writesHang && sc.CancelMs == 0 {
+		sc.CancelMs = rapid.SampledFrom([]int{1, 5, 50, 500, 3000, 9500, 12000}).Draw(t, "hangCancelMs")
 	}
 	if (sc.Op == "provide") && rapid.IntRange(0, 2).Draw(t, "deadline") == 0 {
 		sc.DeadlineMs = rapid.SampledFrom([]int{50, 3000, 9000, 15000, 120000}).Draw(t, "deadlineMs")
